@@ -230,14 +230,12 @@ fn case(code: i64, p: &[i128], msg: &[i128]) -> (Vec<Vec<i128>>, Vec<Vec<i128>>)
                 let mut kc = GGLWEToGGSWKeyCompressed::alloc(dn, b2, kk, Rank(rout as u32), Dnum(h.dnum as u32), Dsize(h.dsize as u32));
                 GGLWEToGGSWKeyCompressedEncryptSk::gglwe_to_ggsw_key_encrypt_sk(&module, &mut kc, &sk_out, sxa, &noise, &mut Source::new(sxe), sc.borrow());
                 let mut g = GGLWEToGGSWKey::alloc(dn, b2, kk, Rank(rout as u32), Dnum(h.dnum as u32), Dsize(h.dsize as u32));
-                // GGLWEToGGSWKeyDecompress has no impl for Module<B> (decompress_gglwe_to_ggsw_key is not callable): do what its
-                // default method does, entry by entry
-                for i in 0..rout { module.decompress_gglwe(g.at_mut(i), kc.at(i)); }
+                module.decompress_gglwe_to_ggsw_key(&mut g, &kc);
                 let all = ser(&kc);
                 let mut kc2 = GGLWEToGGSWKeyCompressed::alloc(dn, b2, kk, Rank(rout as u32), Dnum(h.dnum as u32), Dsize(h.dsize as u32));
                 kc2.read_from(&mut &all[..]).unwrap();
                 let mut g2 = GGLWEToGGSWKey::alloc(dn, b2, kk, Rank(rout as u32), Dnum(h.dnum as u32), Dsize(h.dsize as u32));
-                for i in 0..rout { module.decompress_gglwe(g2.at_mut(i), kc2.at(i)); }
+                module.decompress_gglwe_to_ggsw_key(&mut g2, &kc2);
                 ser_same = ser(&kc2) == all;
                 // entry idx: its own GGLWECompressed, located by walking the serialised list
                 let mut off = 8;
@@ -289,10 +287,9 @@ fn case(code: i64, p: &[i128], msg: &[i128]) -> (Vec<Vec<i128>>, Vec<Vec<i128>>)
         for slot in 0..cells { if bodies_ok { bodies_ok &= bodies[slot * h.size * n..(slot + 1) * h.size * n] == cells_a[slot * cell_words..slot * cell_words + h.size * n]; } }
         let mut flags = std_flag.clone();
         flags.extend([(seeds_w == drawn) as i128, bodies_ok as i128, (cells_a == cells_b) as i128, ser_same as i128]);
-        // predicted flags (from the shape alone).  kind 4 as the code is: the drawn seeds are not stored, so neither the
-        // per-cell comparison with standard encryption nor the seed-order check can succeed
-        let mut exp: Vec<i128> = vec![if h.kind == 4 { 0 } else if std_ok { 1 } else { 2 }; cells];
-        exp.extend([if h.kind == 4 { 0 } else { 1 }, 1, 1, 1]);
+        // predicted flags (from the shape alone): every comparison succeeds, 2 where the public API cannot express it
+        let mut exp: Vec<i128> = vec![if std_ok { 1 } else { 2 }; cells];
+        exp.extend([1, 1, 1, 1]);
         let msw: Vec<i128> = ms.iter().flat_map(|m| to128(m)).collect();
         (vec![msw, to128(&s_out), parent, children, errs, dec_children, exp], vec![seeds_w, cells_a, flags])
     })
